@@ -123,6 +123,19 @@ func printResult(res *exec.Result) {
 	}
 	sort.Strings(fl)
 	fmt.Println("functions:", fl)
+	type fc struct {
+		f string
+		n int64
+	}
+	var fcs []fc
+	for f, n := range st.Funcs {
+		fcs = append(fcs, fc{f, n})
+	}
+	sort.Slice(fcs, func(i, j int) bool { return fcs[i].n > fcs[j].n })
+	if len(fcs) > 12 {
+		fcs = fcs[:12]
+	}
+	fmt.Println("hot functions:", fcs)
 	if res.EngineErr != "" {
 		fmt.Println("ENGINE-ERROR:", res.EngineErr)
 	}
